@@ -32,6 +32,15 @@ CORPUS = [
     [("init", "activation.init", "public"), ("read", "public", (27, 59, 0), "neutron_activation")],
     [("init", "magnetic_ff.init", "public"), ("read", "public", (26, 0, 0), "magnetic_ff")],
     [("init", "xsf.init", "public"), ("read", "public", (26, 56, 2), "xray")],
+    [("calc", "activation_iaea", "Co")],
+    [("calc", "activation_iaea", "Co"), ("calc", "activation", "Co")],
+    [("read", "public", (27, 59, 0), "neutron_activation"), ("reinit", "activation.init", "public"),
+     ("read", "public", (27, 59, 0), "neutron_activation"), ("calc", "activation", "Co")],
+    [("reinit", "nsf.init", "public"), ("reinit", "nsf.init", "public"), ("read", "public", (64, 157, 0), "neutron")],
+    [("read", "public", (26, 0, 0), "crystal_structure"), ("reinit", "crystal_structure.init", "public")],
+    [("reinit", "magnetic_ff.init", "public"), ("calc", "magnetic_j0", [26, 0, 0])],
+    [("init", "xsf.init", "public"), ("reinit", "xsf.init", "public"), ("calc", "xray_sld", "Fe2O3")],
+    [("reinit", "covalent_radius.init", "public"), ("read", "public", (0, 0, 0), "covalent_radius")],
     # changelog: sld for H[2] was wrong when queried before sld for H
     [("read", "public", (1, 2, 0), "neutron"), ("read", "public", (1, 0, 0), "neutron")],
     [("calc", "atom_sld", [1, 2, 0]), ("calc", "neutron_sld", "H2O")],
@@ -49,7 +58,10 @@ def public_events(lab, rng):
     if r < 0.75:
         c = rng.choice(list(CALCS))
         return ("calc", c[0], list(c[1]) if isinstance(c[1], tuple) else c[1])
-    return ("init", rng.choice(lab.cfg["inits"]), "public")
+    name = rng.choice(lab.cfg["inits"])
+    if rng.random() < 0.3 and name != "xsf.init_spectral_lines":
+        return ("reinit", name, "public")
+    return ("init", name, "public")
 
 
 def random_history(lab, rng):
